@@ -44,7 +44,8 @@ func (p Precompile) RegisterAVS(
 	}
 	// verification of the calling address to ensure it is avs contract owner
 	if !slices.Contains(avsParams.AvsOwnerAddress, avsParams.CallerAddress) {
-		return nil, errorsmod.Wrap(err, "not qualified to registerOrDeregister")
+		// err is nil here, so wrapping it would report success: return an error of its own.
+		return nil, fmt.Errorf("this caller not qualified to register %s", avsParams.CallerAddress)
 	}
 	// The AVS registration is done by the calling contract.
 	avsParams.AvsAddress = contract.CallerAddress.String()
